@@ -153,9 +153,9 @@ NoXfer == UNCHANGED tvars
 (******************************** operations *******************************)
 \* build() into staging followed by transfer(staging -> s) of object x and, for a
 \* directory, everything it lists (the way `dvc add` fills a cache); fault free.
-AddObj(s, x) ==
+AddCore(s, X, a) ==
     /\ Idle /\ "add" \in Ops
-    /\ LET ids == {x} \cup ListsOf({x})
+    /\ LET ids == X \cup ListsOf(X)
            q   == StatusPlain(store, ridx, s, ids, TRUE)
            new == ids \ q.exists
            S1  == q.S
@@ -163,8 +163,12 @@ AddObj(s, x) ==
        IN /\ store' = S2
           /\ delivered' = NoteDelivered(S2)
           /\ last' = [op |-> "add", new |-> new]
-    /\ act' = [op |-> "AddObj", s |-> s, x |-> x]
+    /\ act' = a
     /\ UNCHANGED <<ridx, opened, gced, unfin, dev, nx>> /\ NoXfer
+AddObj(s, x) == AddCore(s, {x}, [op |-> "AddObj", s |-> s, x |-> x])
+\* several workspace items - on whatever file systems they live - staged into ONE reference store (a staging store only
+\* holds references: a file listed by two of the items is referenced where it was staged last) and moved together
+AddMany(s, X) == AddCore(s, X, [op |-> "AddMany", s |-> s, xs |-> X])
 
 \* user edits an object in place (after making it writable): bytes no longer match
 Tamper(s, o) ==
@@ -440,6 +444,7 @@ BeginAny ==
 
 Next ==
     \/ \E s \in AddTargets, x \in Oids : AddObj(s, x)
+    \/ \E s \in AddTargets, X \in {Y \in SUBSET Oids : Cardinality(Y) = 2} : AddMany(s, X)
     \/ \E s \in Stores, o \in Files : Tamper(s, o)
     \/ \E s \in Stores, o \in Oids : ExtDelete(s, o)
     \/ \E s \in Stores, o \in Oids, ro \in BOOLEAN : Check(s, o, ro)
